@@ -37,12 +37,24 @@ pub fn check_generator_output(g: &Generator, r: &GenOut, what: &str) -> Result<(
     let exp_long = format_hash(r.log, &r.bh1, &r.bh2_full);
     let h = must("finalize", || g.finalize())?;
     match h {
-        Ok(h) => ensure_eq!(h.to_string(), exp_short, "{}: finalize()", what),
+        Ok(h) => {
+            ensure_eq!(h.to_string(), exp_short, "{}: finalize()", what);
+            // the returned object is a valid one, structurally identical to the parsed text
+            ensure!(must("is_valid", || h.is_valid())?, "{}: finalize() returned an object that fails is_valid(): {:?}", what, h);
+            let parsed = must("parse", || exp_short.parse::<ssdeep::RawFuzzyHash>())?.map_err(|e| format!("{}: hash text {} rejected by the parser: {:?}", what, exp_short, e))?;
+            ensure!(must("full_eq", || h.full_eq(&parsed))?, "{}: finalize() result is not full_eq to the object parsed from its own text {}", what, exp_short);
+            ensure_eq!(h.cmp(&parsed), std::cmp::Ordering::Equal, "{}: finalize() result vs parsed text: cmp", what);
+        }
         Err(e) => return Err(format!("{}: finalize() returned {:?}, expected {}", what, e, exp_short)),
     }
     let h = must("finalize_without_truncation", || g.finalize_without_truncation())?;
     match h {
-        Ok(h) => ensure_eq!(h.to_string(), exp_long, "{}: finalize_without_truncation()", what),
+        Ok(h) => {
+            ensure_eq!(h.to_string(), exp_long, "{}: finalize_without_truncation()", what);
+            ensure!(must("is_valid", || h.is_valid())?, "{}: finalize_without_truncation() returned an object that fails is_valid(): {:?}", what, h);
+            let parsed = must("parse", || exp_long.parse::<ssdeep::LongRawFuzzyHash>())?.map_err(|e| format!("{}: hash text {} rejected by the parser: {:?}", what, exp_long, e))?;
+            ensure!(must("full_eq", || h.full_eq(&parsed))?, "{}: finalize_without_truncation() result is not full_eq to the object parsed from its own text {}", what, exp_long);
+        }
         Err(e) => return Err(format!("{}: finalize_without_truncation() returned {:?}, expected {}", what, e, exp_long)),
     }
     let h = must("finalize_raw<false,64,32>", || g.finalize_raw::<false, 64, 32>())?;
